@@ -712,6 +712,15 @@ theorem Sx_mix_partial (incl : Bool) (l : List (ℝ × ℝ × ℝ)) :
   · rw [mix_eq_weighted_sum]
   · norm_num
 
+/-- The alias labels: `'L'` (second liquid phase) is the liquid and `'S'` the solid, so every theorem about
+`Energies.H/S`, `idealMix` … at phase `.l` / `.s` is the statement for `chemical.H('L', T, P)` / `('S', …)`; no other
+label resolves. -/
+theorem phase_labels :
+    phaseOfLabel "L" = some Phase.l ∧ phaseOfLabel "S" = some Phase.s ∧
+    phaseOfLabel "l" = some Phase.l ∧ phaseOfLabel "s" = some Phase.s ∧ phaseOfLabel "g" = some Phase.g ∧
+    phaseOfLabel "G" = none := by
+  decide
+
 /-! ### `force_gas_critical_phase` -/
 
 /-- With the class switch off (the default) the phase asked for is the phase evaluated, so every theorem above is
